@@ -12,7 +12,7 @@ from __future__ import annotations
 import asyncio
 
 from vf.gen import hdlc_gen, p1_gen, splits
-from vf.mon import hdlc_mon, p1_mon, resync
+from vf.mon import clock, hdlc_mon, p1_mon, resync
 from vf.ref import p1_ref
 
 ID = "C14"
@@ -83,6 +83,12 @@ def make_noise(rng) -> tuple[bytes, list[str]]:
     return bytes(out), kinds
 
 
+def _rng_for(noise: bytes):
+    import random
+
+    return random.Random(len(noise) * 31 + (noise[0] if noise else 0))
+
+
 def record(ctx, what: str, ex: BaseException, case: dict) -> None:
     ctx.violation(f"C14:{what}:{p1_mon.where(ex)}", f"{what} raised {ex!r:.200}", case)
 
@@ -106,6 +112,7 @@ def run_reader(target, cfg, noise, suffix, sent, spec, ctx, case) -> bool:
     left_hunt = False
     fed = 0
     for ch in splits.chunks(stream, spec):
+        clock.tick()
         try:
             msgs = reader.read(ch)
         except Exception as ex:
@@ -158,11 +165,31 @@ def run_protocol(pclass_name, cfg, noise, suffix, sent_payloads, spec, ctx, case
     ctx.seen("frozen_clock_dates", epoch.date().isoformat())
     try:
         for ch in splits.chunks(noise + suffix, spec):
+            clock.tick()
             try:
                 proto.data_received(ch)
             except Exception as ex:
                 record(ctx, f"{pclass_name}.data_received", ex, case)
                 raised = True
+        # the selected reader then sees a long run of complete but invalid messages, and clean ones again
+        if len(noise) % 3 == 0:
+            try:
+                bad = bytearray()
+                for _ in range(24):
+                    fr, _d = hdlc_gen.good_frame(_rng_for(noise), None, max_info=12, want_info=True)
+                    b2 = bytearray(fr)
+                    b2[-1] ^= 0x55
+                    bad += b"\x7e" + hdlc_gen.on_wire(bytes(b2), cfg[0]) + b"\x7e"
+                for ch in (suffix, bytes(bad), suffix, b"/ABC5x\r\n1.8.0(1)\r\n!0000\r\n" * 20, suffix):
+                    clock.tick()
+                    try:
+                        proto.data_received(ch)
+                    except Exception as ex:
+                        record(ctx, f"{pclass_name}.data_received", ex, dict(case, after="selection + 24 invalid messages"))
+                        raised = True
+                ctx.count("protocols_fed_long_invalid_runs_after_selection")
+            finally:
+                pass
     finally:
         meter_connection.datetime = saved
     items = []
